@@ -122,24 +122,25 @@ type extra struct {
 }
 
 type hist struct {
-	c       *fw.Ctx
-	r       *fw.Rand
-	we      *sut.WebEnv
-	m       *model.Store
-	setup   string
-	naming  string
-	names   []string
-	removed map[string][]string
-	extras  map[string]*extra
-	hc      *http.Client
-	cl      *client.Client
-	logLen  int
-	trace   []step
-	sig     map[string]bool
-	judged  int  // API calls judged against a non-empty model
-	failed  bool // the current step recorded a violation
-	abort   bool
-	curName string // spelling of the mailbox name used by the current step
+	c          *fw.Ctx
+	r          *fw.Rand
+	we         *sut.WebEnv
+	m          *model.Store
+	setup      string
+	naming     string
+	names      []string
+	removed    map[string][]string
+	extras     map[string]*extra
+	hc         *http.Client
+	cl         *client.Client
+	logLen     int
+	trace      []step
+	sig        map[string]bool
+	judged     int  // API calls judged against a non-empty model
+	failed     bool // the current step recorded a violation
+	abort      bool
+	clientBase string
+	curName    string // spelling of the mailbox name used by the current step
 }
 
 func runHistory(c *fw.Ctx, idx int, r *fw.Rand) {
@@ -171,12 +172,15 @@ func runHistory(c *fw.Ctx, idx int, r *fw.Rand) {
 		tr2.CloseIdleConnections()
 		we.Close()
 	}()
-	cl, err := client.New(we.Base, client.WithTransport(tr2))
+	// The base URL handed to the client is spelled with and without a trailing slash: both name
+	// the same server, and every client operation must have the same effect either way.
+	clientBase := we.Base + []string{"", "/", ""}[(idx/12)%3]
+	cl, err := client.New(clientBase, client.WithTransport(tr2))
 	if err != nil {
 		panic(err)
 	}
 	h := &hist{c: c, r: r, we: we, m: model.New(0, 0), setup: setupName(backend, base), naming: naming,
-		removed: map[string][]string{}, extras: map[string]*extra{}, cl: cl, sig: map[string]bool{},
+		removed: map[string][]string{}, extras: map[string]*extra{}, cl: cl, clientBase: clientBase, sig: map[string]bool{},
 		hc: &http.Client{Transport: tr1, Timeout: time.Duration(c.Slow) * 60 * time.Second,
 			CheckRedirect: func(*http.Request, []*http.Request) error { return http.ErrUseLastResponse }},
 	}
@@ -225,7 +229,7 @@ func (h *hist) violation(key, what string) {
 		key = SlashKey
 	}
 	h.c.Violation(key, fmt.Sprintf("[%s naming=%s mailbox=%q] %s", h.setup, h.naming, h.curName, what),
-		map[string]any{"setup": h.setup, "naming": h.naming, "base": h.we.Base, "names": h.names, "trace": tailSteps(h.trace, 60)})
+		map[string]any{"setup": h.setup, "naming": h.naming, "base": h.we.Base, "client_base": h.clientBase, "names": h.names, "trace": tailSteps(h.trace, 60)})
 }
 
 func tailSteps(t []step, n int) []step {
